@@ -303,14 +303,23 @@ pub fn generate(profile: &str, seed: u64, index: u64) -> CountScenario {
         (calls, k, if has_when { nm } else { 0 })
     };
     for _ in 0..n_l {
-        let n = rng.below(7) as usize;
-        let (calls, k, nm) = gen_calls(&mut rng, n);
+        let n_small = rng.below(7) as usize;
+        let (calls, k, nm) = gen_calls(&mut rng, n_small);
+        // "for all N >= 0": now and then an expectation far beyond anything a test would make,
+        // a multiple of 2^32 (or 2^16, 2^31, 2^63) away from the number of calls
+        let n = if rng.chance(1, 10) {
+            let big = *rng.pick(&[1usize << 32, 1 << 16, 1 << 31, 1 << 63, 3 << 32, usize::MAX - 15]);
+            classes.push("N-huge".into());
+            n_small + big
+        } else {
+            n_small
+        };
         let exit_panic = rng.chance(1, 5);
         // a quarter of the lifetimes evaluate the expression a second time (same N: the same set-up
         // code; or another N) and install the result again
         let second = if rng.chance(1, 4) {
-            let n2 = if rng.chance(2, 3) { n } else { rng.below(7) as usize };
-            let (calls2, k2, _) = gen_calls(&mut rng, n2);
+            let (n2, n2_small) = if rng.chance(2, 3) { (n, n_small) } else { let x = rng.below(7) as usize; (x, x) };
+            let (calls2, k2, _) = gen_calls(&mut rng, n2_small);
             let other = matches!(site.as_str(), "a" | "b" | "e") && rng.chance(1, 2);
             classes.push(format!("again-N{}-m{}-{}", n2, k2.min(9), if other { "other-function" } else { "same-function" }));
             Some(CSecond { n: n2, calls: calls2, other })
